@@ -347,6 +347,34 @@ def chunkings(rng, data, k=3):
 # JSON-able cases
 # ------------------------------------------------------------------------------------------
 
+def split_chain(rng, chains):
+    """cut one chain of a well-formed file in two at a block boundary (in place, the second half directly after the
+    first): with the gap at the cut kept, or removed so that the second chain starts exactly where the first one
+    ends on both sequences. The file stays well-formed (sizes do not change, extents only shrink)."""
+    cand = [k for k, c in enumerate(chains) if len(c.blocks) >= 2]
+    if not cand:
+        return chains
+    k = rng.choice(cand)
+    c = chains[k]
+    cut = rng.randint(1, len(c.blocks) - 1)
+    s, dt, dq = c.blocks[cut - 1]
+    if rng.random() < 0.7:
+        dt = dq = 0
+    a_blocks = [tuple(b) for b in c.blocks[:cut - 1]] + [(s, 0, 0)]
+    b_blocks = [tuple(b) for b in c.blocks[cut:]]
+    a = Chain(c.score, copy.deepcopy(c.ref), copy.deepcopy(c.qry), c.cid, a_blocks)
+    a.ref.end = a.ref.start + a.ref_extent()
+    a.qry.end = a.qry.start + a.qry_extent()
+    b = Chain(c.score, copy.deepcopy(c.ref), copy.deepcopy(c.qry), max(x.cid for x in chains) + 1 if max(x.cid for x in chains) < U64 else c.cid, b_blocks)
+    b.ref.start = a.ref.end + dt
+    b.qry.start = a.qry.end + dq
+    b.ref.end = b.ref.start + b.ref_extent()
+    b.qry.end = b.qry.start + b.qry_extent()
+    if b.ref.end > b.ref.size or b.qry.end > b.qry.size:
+        return chains
+    return chains[:k] + [a, b] + chains[k + 1:]
+
+
 def chain_to_dict(c):
     return {"score": c.score, "id": c.cid,
             "ref": [c.ref.name, c.ref.size, c.ref.strand, c.ref.start, c.ref.end],
